@@ -1,4 +1,6 @@
--- stub: component `heap` not built yet
+import Driver.Heap
+open Driver
+
 def main : IO UInt32 := do
-  IO.eprintln "driver-heap: not implemented"
-  return 2
+  runComponent Heap.init Heap.step
+  return 0
